@@ -1906,6 +1906,9 @@ class Interp:
 
     def havoc_heap(self, stmts):
         """Heap locations (by attribute name) stored inside a loop body are loop-carried: forget their values."""
+        # (last-element facts X[-1] = v recorded after X.append(v) hold for straight-line code only)
+        for k in [k for k in self.heap if k[0] == 'idx' and k[2] == C(-1)]:
+            del self.heap[k]
         names = self.stored_attrs(stmts)
         if names:
             for k in list(self.heap):
@@ -2074,6 +2077,8 @@ class Interp:
         fr.loopdepth -= 1
         e = Eff('for', fr.func, s, binder=b, body=body, lid=lid, pre={k: self.deref(pre[k]) for k in carried})
         self.loopinfo[lid] = e
+        for k in [k for k in self.heap if k[0] == 'idx' and k[2] == C(-1)]:
+            del self.heap[k]                  # ... and do not survive the loop either
         self.finish_loop(e, pre, carried, b, fr)
         self.emit(e)
 
